@@ -284,6 +284,11 @@ Qed.
 Lemma bidx_nil js : bidx [] js = [].
 Proof. reflexivity. Qed.
 
+Lemma value_fits_bcast vs ss : value_fits vs ss = true -> bcast_ok vs ss = true.
+Proof.
+  unfold value_fits. destruct ss; [|auto]. destruct vs; [reflexivity|discriminate].
+Qed.
+
 Lemma locate_length axs : forall t js, locate axs t = Some js -> length js = length (selshape axs).
 Proof.
   induction axs as [|[k|ks] r IH]; intros [|i t] js; simpl; try discriminate.
@@ -943,7 +948,7 @@ Section Histories.
   Proof.
     intros He. destruct k as [es|ls|m]; simpl.
     - unfold np_setitem_basic. destruct (np_axes (np_pad es sh) sh) as [axs|]; [|exact I].
-      destruct (bcast_ok (a_shape v) (selshape axs)); [|exact I].
+      destruct (value_fits (a_shape v) (selshape axs)); [|exact I].
       intros ix. destruct (locate axs ix); [reflexivity|apply He].
     - destruct (np_rows ls sh) as [rows|]; [|exact I]. unfold np_assign_rows.
       destruct (bcast_ok (a_shape v) [Z.of_nat (length rows)]); [|exact I].
@@ -978,7 +983,8 @@ Section Histories.
       simpl in Hset. rewrite Hset. clear Hset.
       unfold np_setitem_basic in *. unfold value_ndim_clause in Hvn.
       destruct (np_axes (np_pad es sh) sh) as [axs|] eqn:Eax; [|discriminate].
-      destruct (bcast_ok (a_shape v) (selshape axs)) eqn:Eb; [|discriminate].
+      destruct (value_fits (a_shape v) (selshape axs)) eqn:Eb; [|discriminate].
+      apply value_fits_bcast in Eb.
       apply Nat.leb_le in Hvn.
       destruct (setitem_basic_spec V veqb veqb_eq fill sh st es v axs Hok Eax Eb Hvn)
         as (st' & He & Ha & Hw).
